@@ -15,6 +15,14 @@ def one_mb_picture(mode, q, mb):
     return b
 
 
+def mbs_picture(mode, q, mbs):
+    b = S.Bits()
+    b.extend(picgen.header_bits(mode, "I", 3, 16 * len(mbs), 16, q))
+    for mb in mbs:
+        b.extend(S.macroblock_bits("I", mb, mode))
+    return b
+
+
 def gen_cases(ctx, thorough):
     """one-macroblock 16x16 intra pictures observed through the public API"""
     cases, descs = [], {}
@@ -29,6 +37,19 @@ def gen_cases(ctx, thorough):
                 cases.append((idx, 0 if mode == "std" else 1, [D(one_mb_picture(mode, q, mb).to_bytes())]))
                 descs[idx] = {"mode": mode, "ptype": "I", "w": 16, "h": 16, "quant": q, "tr": 3, "mbs": [mb], "what": "dquant"}
                 idx += 1
+    # (1b) the quantizer in force is a running value: every PQUANT x DQUANT x DQUANT sequence (the second update starts from
+    # the clipped result of the first), and three-step sequences around the rails
+    seqs = [(q, (d1, d2)) for q in range(1, 32) for d1 in (-2, -1, 1, 2) for d2 in (-2, -1, 1, 2)]
+    seqs += [(q, (d1, d2, d3)) for q in (1, 2, 3, 29, 30, 31) for d1 in (-2, 2) for d2 in (-2, -1, 1, 2) for d3 in (-2, 2)]
+    for q, ds in seqs:
+        for mode in (("v0", "std") if q in (1, 2, 3, 29, 30, 31) else ("v0",)):
+            mbs = []
+            for k, dq in enumerate(ds):
+                blocks = [(60 + k, [("esc", 1, 2 + k, 30)])] + [(100, [])] * 5
+                mbs.append({"kind": "coded", "type": S.INTRAQ, "cbp": [1, 0, 0, 0, 0, 0], "dquant": dq, "blocks": blocks})
+            cases.append((idx, 0 if mode == "std" else 1, [D(mbs_picture(mode, q, mbs).to_bytes())]))
+            descs[idx] = {"mode": mode, "ptype": "I", "w": 16 * len(mbs), "h": 16, "quant": q, "tr": 3, "mbs": mbs, "what": "dquant-sequence"}
+            idx += 1
     # (2) levels in every escape form at a few positions, all quantizers
     forms = [("v0", "esc", [1, 2, 63, 64, 127]), ("std", "esc", [1, 127]), ("v1", "esc7", [1, 31, 63]), ("v1", "esc11", [1, 64, 511, 512, 1022, 1023])]
     for mode, form, levels in forms:
@@ -94,15 +115,15 @@ def run(ctx):
             v = refdec.compare(planes, unc, (p["Y"], p["Cb"], p["Cr"]))
         if v is not None:
             ev = d["mbs"][0]["blocks"][0]
-            ctx.violation({"kind": "picture", "class_key": d["what"], "options": o, "ops": ops, "quant": d["quant"], "dquant": d["mbs"][0].get("dquant"),
+            ctx.violation({"kind": "picture", "class_key": d["what"], "options": o, "ops": ops, "quant": d["quant"], "dquant": [m.get("dquant") for m in d["mbs"]],
                            "block0": [ev[0], [list(e) for e in ev[1]]], "spec": "reference reconstruction", "implementation": v},
-                          "%s case q=%d dquant=%s block0=%s: %s" % (d["what"], d["quant"], d["mbs"][0].get("dquant"), ev, v))
+                          "%s case q=%d dquant=%s block0=%s: %s" % (d["what"], d["quant"], [m.get("dquant") for m in d["mbs"]], ev, v))
             found = True
         elif io.get(idx) != mo.get(idx):
             broken.append("correspondence picture: model differs from implementation on a %s case" % d["what"])
         else:
             nontriv.add(idx)
-    ctx.count("one-macroblock pictures through decode_next_picture (31 x 4 quantizer updates x 2 modes; levels in every escape form; 256 INTRADC codes)",
+    ctx.count("one-macroblock pictures through decode_next_picture (31 x 4 quantizer updates x 2 modes; all 31 x 4 x 4 two-step and the three-step sequences around the rails; levels in every escape form; 256 INTRADC codes)",
               len(cases), nontriv, sample={"q": 1, "dquant": -2, "block0": [60, [["esc", 1, 2, 30]]]}, exhaustive=True)
     ctx.cov["rule"] = "kernel sweep: exhaustive over the stated domain; pictures: one per listed combination; non-trivial = accepted and equal to the reference reconstruction and to the model"
     ctx.cov["exhaustive"] = True
